@@ -138,6 +138,7 @@ macro_rules! stats_small_harness {
         #[kani::stub(std::alloc::handle_alloc_error, crate::stubs::hae_stub)]
         fn $name() {
             unsafe { SMALL_REQ = true };
+            unsafe { WIDE = true };
             stats_body::<$A, $S, 0>($hdr, 1);
         }
     };
@@ -189,6 +190,7 @@ fn growth_body<A, St: BumpAllocatorSettings>(header_size: usize, fill: usize)
 where
     A: BaseAllocator<St::GuaranteedAllocated> + Default,
 {
+    unsafe { WIDE = true };
     set_budget(1);
     let Ok(bump) = Bump::<A, St>::try_with_size(112) else { return };
     let mut bump = core::mem::ManuallyDrop::new(bump);
